@@ -3,7 +3,9 @@ package all
 
 import (
 	_ "verif/scenarios/c04"
+	_ "verif/scenarios/c06"
 	_ "verif/scenarios/c10"
 	_ "verif/scenarios/c11"
+	_ "verif/scenarios/c12"
 	_ "verif/scenarios/c17"
 )
